@@ -209,7 +209,7 @@ Proof.
   destruct Hk as [E | [top [lv [cl [ks1 [r1 [Ht [Hcc Hk]]]]]]]].
   - rewrite E. exact HI.
   - pose proof (create_chain_rinv lv _ top cl ks1 r1 HI Hcc) as HI1.
-    destruct Hk as [E | [parent [hard [idx [id [cnt [ks2 [r2 [Hp [Hb E]]]]]]]]]].
+    destruct Hk as [E | [parent [hard [idx [id [cnt [ks2 [r2 [Hp [Hb [E _]]]]]]]]]]].
     + rewrite E. exact HI1.
     + rewrite E. eapply create_bulk_rinv; eauto.
 Qed.
@@ -286,6 +286,10 @@ Proof.
   - apply mark_used_rinv; exact HI.
   - exact HI.
   - unfold lib_scan. apply scan_steps_rinv; exact HI.
+  - unfold lib_account.
+    repeat match goal with
+           | |- context [match ?x with _ => _ end] => destruct x eqn:?
+           end; simpl; exact HI.
 Qed.
 
 Lemma run_rinv : forall ops w, RInv (ws_keys w) -> RInv (ws_keys (run X derive w ops)).
